@@ -14,6 +14,7 @@ CHECKS = {
  "C04": "sign_packet_with_crc_key is executed on every hex text of 0..24 (quick) / 0..160 (thorough) bytes in both letter cases against a bit-precise CRC-16 reference; free text of 1..6 characters that is not valid hex must raise.",
  "C05": "_parse_device_from_datagram is executed with every byte of the datagram symbolic under the well-formedness predicate; each delivered field is compared with an independent reference decoder, per device type.",
  "C06": "The datagram is 2 free bytes plus a tail of symbolic length (0..65505): one query per path covers every length and content; the three accepted lengths are re-run with all bytes free for the unknown-model clause.",
+ "C07": "SwitcherBridge.start and the per-port protocols run under a stub event loop; sequences of datagram classes (valid of each family, foreign, short, long, unknown model, undecodable) with every byte symbolic under its class predicate and one symbolic 'callback raises' bit per invocation; per-port delivery log compared with the reference decode.",
  "C08": "get_state / get_shutter_state / get_breeze_state are executed against a reply whose parsed prefix is fully symbolic plus a tail of symbolic length; every field of the returned object is compared with the reference decoder.",
  "C09": "Every operation is executed with replies of every length 0..101 (all bytes free) and with a symbolic-length tail at each step; the set of outcomes (returned class / exception class / frames written / success flag) is computed over all feasible paths.",
  "C10": "get_schedules is executed (1) on one record with all bytes free and everything inlined, (2) on k records with the day/duration/next-run functions replaced by argument-recording summaries, (3) on the record create_schedule itself emits, listed back under an arbitrary slot id; zone row and instants symbolic.",
@@ -21,6 +22,8 @@ CHECKS = {
  "C12": "Weekday encoders/decoder executed on a symbolic single day, a set with 7 free membership bits, lists/tuples of symbolic days and a symbolic mask; bit-exactness, rejection and the round trip are refuted per path.",
  "C13": "pretty_next_run is executed per (zone, day set) with symbolic start digits, clock instant and zone row; the text is compared with the earliest-occurrence rule on the LOCAL weekday and minute.",
  "C14": "calc_duration executed on symbolic digits: all 1440 x 1440 pairs per digit shape in one run.",
+ "C17": "Every sequence of up to n bridge actions (start, stop, enter, exit, send, occupy, release, cycle) over a stub event loop; the action of each step is a solver variable; after each step the running flag, the set of listening ports and the callbacks are checked against the life-cycle automaton.",
+ "C18": "Every sequence of up to n client actions (connect, refused connect, operation, failing operation, disconnect, async-with variants) over stub streams for both API types; connected flag and open sockets are checked after each step.",
  "C19": "Device type is a symbolic choice over the enum; constructors of the four classes and both port tables are checked against the statement's own table (finite space, covered completely).",
 }
 REF = {k: "DESIGN.md §6 " + k for k in CHECKS}
